@@ -299,7 +299,7 @@ def run_point(p: Dict[str, Any], verbose: bool = False) -> Tuple[Optional[Dict[s
             second = make_info(desc)
             task = w.spawn(reg(second, allow_name_change=p["allow"], cooperating_responders=p["coop"]))
             w.advance(5000)
-            names = list(a.zc.registry._services)
+            names = [i.name.lower() for i in a.zc.registry.async_get_service_infos()]
             if len(names) != len(set(names)):
                 problems.append(f"twice: registry holds {names}")
             if "ok" in result and result["ok"].lower() == desc.name.lower():
